@@ -618,6 +618,15 @@ fn run_zone(c: &mut Ctx, z: &Zc) {
     if sep_comparable(pz) {
         c.op(&format!("tzl.sep {}", z.dump), b01(z.sep));
     }
+    // the year-by-year hypotheses on the rule (`RuleYearly`, `InsideYear`), evaluated here on one
+    // Gregorian cycle with the harness's own calendar and by the model (`ruleYearlyB`, `insideYearB`;
+    // `Props.C05.ruleYearly_of_B`: the 400-year check decides the statement for every year)
+    if let Rule::Alt(a) = &pz.rule {
+        let yearly = (2000..2400).all(|y| rule_yearly_at(a, y));
+        let inside = (2000..2400).all(|y| inside_year_ut(a, y));
+        c.op(&format!("tzl.yearly {}", z.dump), &format!("{}{}", b01(yearly), b01(inside)));
+        c.count(&format!("zone.rule.alt.yearly={}.inside={}", b01(yearly), b01(inside)));
+    }
     // ---- lookup by instant
     for chunk in at.chunks(400) {
         let res: Vec<Result<(i32, bool), String>> =
